@@ -1156,13 +1156,22 @@ def translate(repo: Path) -> str:
             if name not in meths:
                 tr.bad(sp, f"{clsname}.{name} missing")
             tr.method(clsname, meths[name])
-        h = meths.get("__hash__")
-        if h is None or ast.unparse(h.body[-1]) != "return hash(str(self))":
-            tr.bad(sp, f"{clsname}.__hash__ is not hash(str(self))")
         st = meths.get("__str__")
         if st is None or len(st.body) != 1 or not isinstance(st.body[0], ast.Return) or not isinstance(st.body[0].value, ast.Constant):
             tr.bad(sp, f"{clsname}.__str__ is not a constant")
-        special_info[clsname] += (st.body[0].value.value,)
+        h = meths.get("__hash__")
+        hret = [n for n in (h.body if h else []) if not (isinstance(n, ast.Expr) and isinstance(n.value, ast.Constant))]
+        if len(hret) != 1 or not isinstance(hret[0], ast.Return) or not isinstance(hret[0].value, ast.Call) \
+                or getattr(hret[0].value.func, "id", "") != "hash" or len(hret[0].value.args) != 1:
+            tr.bad(sp, f"{clsname}.__hash__ is not `return hash(<expr>)`")
+        harg = hret[0].value.args[0]
+        if ast.unparse(harg) == "str(self)":
+            hkey = "HStr [" + "; ".join(str(ord(c)) for c in st.body[0].value.value) + "]%N"
+        elif isinstance(harg, ast.Tuple) and all(isinstance(e, ast.Constant) and (e.value is None or isinstance(e.value, bool)) for e in harg.elts):
+            hkey = "HTuple [" + "; ".join("HNone" if e.value is None else f"HBool {str(e.value).lower()}" for e in harg.elts) + "]"
+        else:
+            tr.bad(sp, f"{clsname}.__hash__ argument {ast.unparse(harg)!r}")
+        special_info[clsname] += (hkey,)
     out.extend(tr.out)
     tr.out = []
 
@@ -1217,8 +1226,8 @@ def translate(repo: Path) -> str:
         return "[" + "; ".join(str(ord(c)) for c in s) + "]%N"
 
     out.append("Definition spec_hkey (s : spec) : hk :=\n  match s with\n"
-               f"  | SEmpty => HStr {strlit(special_info['EmptySpecifier'][2])}\n"
-               f"  | SAny => HStr {strlit(special_info['AnySpecifier'][2])}\n"
+               f"  | SEmpty => {special_info['EmptySpecifier'][2]}\n"
+               f"  | SAny => {special_info['AnySpecifier'][2]}\n"
                "  | SRange r => range_hkey r\n  | SUnion u => union_hkey u\n"
                "  | SArb t => HTuple [HStr t]\n  | SGeneric g => HTuple [HOp (g_op g); HStr (g_value g)]\n  end.\n")
     out.append("Definition spec_contains_str (s : spec) (value : str) : pyres bool :=\n  match s with\n"
